@@ -578,6 +578,56 @@ fn catalogue<V: Cv>(thorough: bool, seed: u64) -> Vec<Task<V>> {
                     push(Op::MsmLeBits(n), &format!("msm_by_le_bits[{n}]"), ins, mul_cost, false, false);
                 }
             }
+            // k_out_of_n_points: tables of witnessed points, selections at different positions
+            {
+                let pool: Vec<RP> = vec![r0.clone(), r1.clone(), c.add(&r0, &r0), g.clone(), c.add(&r0, &r1)];
+                let sizes: Vec<(usize, usize)> = if full || V::NAME == "secp256k1" { vec![(1, 1), (2, 1), (3, 1), (3, 2), (4, 2), (5, 3)] } else { vec![(3, 2), (5, 3)] };
+                for (n, k) in sizes {
+                    let table: Vec<RP> = pool[..n].to_vec();
+                    let mk = |table: &[RP], sel: &[usize]| -> Vec<Val> { table.iter().map(pv).chain(sel.iter().map(|i| Val::H(table[*i].clone()))).collect() };
+                    // all k-subsets in lexicographic order
+                    let mut subsets: Vec<Vec<usize>> = vec![];
+                    let mut cur: Vec<usize> = (0..k).collect();
+                    loop {
+                        subsets.push(cur.clone());
+                        let mut i = k;
+                        while i > 0 && cur[i - 1] == n - k + i - 1 {
+                            i -= 1;
+                        }
+                        if i == 0 {
+                            break;
+                        }
+                        cur[i - 1] += 1;
+                        for j in i..k {
+                            cur[j] = cur[j - 1] + 1;
+                        }
+                    }
+                    let chosen: Vec<Vec<usize>> = if thorough || subsets.len() <= 3 { subsets.clone() } else { vec![subsets[0].clone(), subsets[subsets.len() / 2].clone(), subsets[subsets.len() - 1].clone()] };
+                    let mut ins: Vec<Vec<Val>> = chosen.iter().map(|s| mk(&table, s)).collect();
+                    if n >= 3 {
+                        // a table with a repeated entry; the selection takes its first occurrence
+                        let mut t2 = table.clone();
+                        t2[1] = t2[0].clone();
+                        let sel: Vec<usize> = [0usize, 2, 3, 4].iter().copied().filter(|i| *i < n).take(k).collect();
+                        if sel.len() == k {
+                            ins.push(mk(&t2, &sel));
+                        }
+                    }
+                    // outside the documented domain: identity on the table (unsatisfiable), selection
+                    // out of table order / the same entry twice (synthesis error)
+                    let mut t3 = table.clone();
+                    t3[n - 1] = id.clone();
+                    ins.push(mk(&t3, &(0..k).collect::<Vec<_>>()));
+                    if k >= 2 {
+                        let rev: Vec<usize> = (0..k).rev().collect();
+                        ins.push(mk(&table, &rev));
+                        let mut dup: Vec<usize> = (0..k).collect();
+                        dup[1] = dup[0];
+                        ins.push(mk(&table, &dup));
+                    }
+                    push(Op::KOutOfN { n, k }, &format!("k_out_of_n_points[{k} of {n}]"), ins, 6, true, false);
+                }
+            }
             if V::NAME == "bls12_381" {
                 let mut ins = vec![vec![pv(&r0)]];
                 for o in &pts.outside {
@@ -792,8 +842,9 @@ fn main() {
                 rep.inconclusive(&format!("no honest run on {c}"));
             }
         }
-        // about half of the planned (entry, input) cases: 1302 thorough / 349 quick at the time of writing
-        rep.min_nontrivial = if thorough { 600 } else { 150 };
+        // about half of what a full run registers (each (entry, input) is registered by this file
+        // and, when in domain, by the driver: 623 quick / ~2 500 thorough at the time of writing)
+        rep.min_nontrivial = if thorough { 1200 } else { 300 };
     }
     rep.finish();
 }
